@@ -32,6 +32,12 @@ CHECKS = {
   "C12": dict(level="exploration", technique="property-based testing: exhaustive tiny-grid enumeration + proptest generation against an exact big-integer determinant oracle with an explicit tolerance/rounding band",
      text="Every predicate entry point (fast, robust x 4 configs, lifted, both kernels) is compared with the exact sign on every ordered tuple of the 3x3 grid and the unit cube and on generated D=2..5 tuples under vertex permutations; violations are shrunk by proptest. Sampling beyond the exhaustive grids: no absence claim.",
      note="Trusted: the harness' own BigInt/determinant code (unit- and identity-tested), the documented tolerance formula, the a-posteriori GEPP rounding bound (DESIGN 2.1).", ref="3 C12"),
+  "C13": dict(level="fault_enumeration", technique="round-trip property-based testing plus per-document enumeration of single-field JSON corruptions, judged by fingerprint equality and the independent L1/L2 oracle",
+     text="Reachable triangulations (with removals, vertex and cell data) are round-tripped at Tds and DelaunayTriangulation level and must come back identical, equal, equally valid and equally usable; every single-field corruption of the document must be rejected or load into a structure that passes independent L1/L2.",
+     note="serde_json is used with float_roundtrip (without it the JSON parser itself may be 1 ulp off). Orientation-tampered documents are a recorded known finding pinned by existing tests.", ref="3 C13"),
+  "C14": dict(level="exploration", technique="metamorphic and differential property-based testing: repeated / concurrent / child-process builds, input permutations, and comparison with the brute-force reference Delaunay triangulation in exact general position",
+     text="Identical input and options must give identical fingerprints in-thread, across 8 threads and in a fresh process; order-insensitive strategies must be invariant under permutations of the input slice; in general position every certified construction path must yield the unique Delaunay triangulation.",
+     note="Thread interleavings are not controlled (the construction path shares only one thread-local). Perturbed results are not compared with the reference.", ref="3 C14"),
   "C15": dict(level="exploration", technique="stateful property-based testing, differential against brute-force face enumeration of the stored cells",
      text="After every state-changing step of generated histories (insert, remove, flips, repair) every topology/adjacency query, indexed and non-indexed, for every live and several missing keys, plus simplex counts, Euler characteristic and classification, is compared with direct enumeration.",
      note="Only states valid at the configured guarantee (independent L1-L3) are compared.", ref="3 C15"),
